@@ -191,6 +191,8 @@ class Index:
             self._index_module(m)
         for c in self.classes.values():
             self._resolve_bases(c)
+        from .roles import canonicalise
+        self.recovered_names = canonicalise(self)
 
     def _index_module(self, m: ModuleInfo) -> None:
         for node in ast.walk(m.tree):
